@@ -20,6 +20,7 @@ META["text"] += " (R5, N) no array inherits the sample's dtype through np.full_l
 META["text"] += ' (R4 = C13.R1-R3) the history is non-negative because every factor is: the clamped estimators and the bets stay in range.'
 META["text"] += ' (R6, N) no method keeps state between calls (see C01.R8). An early exit is one more row of the table: R1 and R3 hold on it as well.'
 META["text"] += ' R2 holds for every sample length >= 1 (length formulas carry the smallest n they are exact for). R3 also: the constructor keeps its positional protocol, so a positional random_order reaches the tests.'
+META["text"] += ' R1 also: the history is min(1, 1/T) of one statistic on every path, early exits included. R3 also: the p-value an assertion records is the one its test returned (= C09.R1).'
 
 REL = nnm.REL
 
@@ -70,6 +71,8 @@ def run(chk):
     chk.need("C11.R1", len(tfs), 6, "test methods")
     for name, tf in tfs.items():
         R.rule_cap(chk, tf, "C11.R1")
+        # ... of one and the same statistic on every path through the test (an early exit reports the history of its own row)
+        R.rule_factor_and_composition(chk, tf, {"composition": "C11.R1"})
         R.rule_overall_matches_history(chk, tf, "C11.R3")
         fr = fl.analyse(f"{nnm.CLS}.{name}", {"x": X})
         ret = fr.ret
